@@ -134,7 +134,7 @@ prop('C15',
                  'by nested loop invariants over the real loops; Cnf::condition against substitution of the literal; PartialModel get/set/unset/is_set/lit_implied/lit_neg_implied and VarSet insert/remove/contains against a set view, with the frame '
                  '(other variables unchanged) and the invariant that no variable is in both sets; Literal bit packing by Kani over all u64 x bool',
      not_covered=[
-         'Cnf::new is under contract -- same number of clauses, clause by clause the same set of literals, hence the same meaning on every assignment, every label below num_vars -- with declared rewrites (R-map-collect, R-max twice, the hasher initialiser dropped) and the std methods sort_by_key / dedup as stubs that keep exactly the set of elements (A-std-sort-dedup); precondition: labels fit 63 bits [+ bounded check `cnf`]', 'Cnf::condition is under contract -- (F | l) evaluates on every assignment a like F on a with l\'s variable set to l\'s polarity, by invariants over the two real loops (whole clause skipped on a literal equal to l, the opposite literal dropped) -- with two declared loop-header rewrites (R-for-while: labelled `continue` needs a `while`); its final call `Cnf::new(&new_cnf)` is answered by the proved contract of Cnf::new [+ bounded check `cnf`]', 'CnfHasher (HashSet; external prime sieve; labelled continue): the residual-formula hasher sentence of the property has a bounded check only (`hasher`)',
+         'Cnf::new is under contract -- same number of clauses, clause by clause the same set of literals, hence the same meaning on every assignment, every label below num_vars and num_vars exact (0 without literals, else the largest label + 1) -- with declared rewrites (R-map-collect, R-max twice, the hasher initialiser dropped) and the std methods sort_by_key / dedup as stubs that keep exactly the set of elements (A-std-sort-dedup); precondition: labels fit 63 bits [+ bounded check `cnf`]', 'Cnf::condition is under contract -- (F | l) evaluates on every assignment a like F on a with l\'s variable set to l\'s polarity, by invariants over the two real loops (whole clause skipped on a literal equal to l, the opposite literal dropped) -- with two declared loop-header rewrites (R-for-while: labelled `continue` needs a `while`); its final call `Cnf::new(&new_cnf)` is answered by the proved contract of Cnf::new [+ bounded check `cnf`]', 'CnfHasher (HashSet; external prime sieve; labelled continue): the residual-formula hasher sentence of the property has a bounded check only (`hasher`)',
          'AssignmentIter::next (fold closure) and Cnf::wmc (brute-force counting) [bounded check `cnf` only; it found the empty-formula defect fixed in 18754bc]',
          'PartialModel::new / from_assignments / from_total_model / from_litvec are under contract (variable i gets exactly entry i; the last literal on a variable wins; everything else unset; never in both sets) with declared header rewrites (R-enumerate, R-map-collect) and BitSet::new / with_capacity as stubs returning the empty set (A-bitset)', 'VarSet union / minus / intersect_varset / difference and PartialModel assignment_iter / difference (BitSet iterator adapters) [bounded check `cnf` only]',
      ])
